@@ -70,6 +70,9 @@ pub fn install_panic_hook() {
             .unwrap_or(file);
         if !QUIET.load(Ordering::Relaxed) {
             eprintln!("panic [{}] {}:{} {}", name, file, line, message);
+            if std::env::var("VERIF_BT").is_ok() {
+                eprintln!("{}", std::backtrace::Backtrace::force_capture());
+            }
         }
         // try_lock: never deadlock inside the hook
         if let Ok(mut p) = PANICS.lock() {
